@@ -1,712 +1,892 @@
-import MontePyVerif.Model.Renumber
-import MontePyVerif.Props.C06
+import MontePyVerif.Props.C04Core
+import MontePyVerif.Lemmas.RenumberLink
 /-!
-# C04 — renumbering keeps every modelled reference pointing at the same object
+# C04, end to end — from the file read to the file written
 
-Property (fixed text, properties.jsonl): renumbering a cell, surface, material, transform or universe
-through the API changes, in the written file, its own number and every modelled reference to it and
-nothing else; after any sequence of renumberings, including swaps through a temporary number, every
-reference resolves to the same object as before.
-
-Model: `Model/Renumber.lean` (`write`, `setNumber`, `run`, `link`) on top of `Model/Collection.lean`.
-Spec: `Spec/Refs.lean` (`WFile.at`, `resolve`, `WFile.effU`, `WFile.effFill`, `WFile.cellsIn`).
-Number uniqueness is **not** assumed: it is C06's invariant `Inv`, which `C06_step` preserves along
-every history (`C04_wf_step` uses it).
+`Props/C04Core.lean` proves the property for every *well-formed linked problem* (`WF`) and every
+history of number assignments.  This file closes the two ends: a well-formed **file** (`WellFormed`,
+decided by `WFile.wellFormedB` of `Spec/Refs.lean`) always links, the linked problem satisfies the
+whole of `WF` (`C04_link_establishes_wf`), its unedited write has the reference structure of the
+file (`C04_unedited_roundtrip`; literally the file when it is in normal form,
+`C04_roundtrip_literal_partial`), and therefore (`C04_end_to_end`) for every well-formed file and
+every finite sequence of number assignments every reference in the written file resolves to the
+card / the cells it resolved to in the original.  Helper lemmas about `link` are in
+`Lemmas/RenumberLink.lean`.
 -/
 namespace MontePyVerif.Renumber
 open MontePyVerif.Collection
 open MontePyVerif.Spec.Refs
 
-def kindOf : CardKind → Kind
-  | .cell => .cell | .surf => .surf | .mat => .mat | .tr => .tr
+/-! ## From a file to a well-formed linked problem and back -/
 
-/-- The pointer MontePy holds — and writes — at a site of the file (`none`: nothing is written there). -/
-def Prob.ptr (p : Prob) : Site → Option (CardKind × ObjId)
-  | .geom c i => (p.cells.objs[c]?).bind (fun o => (p.cell o).geom[i]?.map
-      (fun l => (if l.isCell then CardKind.cell else CardKind.surf, l.target)))
-  | .cellMat c => (p.cells.objs[c]?).bind (fun o => (p.cell o).mat.map (fun m => (CardKind.mat, m)))
-  | .mt m => (p.mats.objs[m]?).bind (fun o => (p.mat o).mt.map (fun x => (CardKind.mat, x)))
-  | .surfTr s => (p.surfs.objs[s]?).bind (fun o => (p.surf o).tr.map (fun x => (CardKind.tr, x)))
-  | .surfPer s => (p.surfs.objs[s]?).bind (fun o =>
-      match (p.surf o).tr with
-      | some _ => none
-      | none => (p.surf o).per.map (fun x => (CardKind.surf, x)))
-  | .fillTr c => (p.cells.objs[c]?).bind (fun o =>
-      if p.fillData = false ∧ (p.cell o).fill ≠ [] then (p.cell o).fillTr.map (fun x => (CardKind.tr, x)) else none)
+/-- **Well-formed file** (numbers-only view), MCNP's own rules for a problem (DESIGN 5.2 well-formedness):
+    card numbers unique per block, material numbers not 0, every number written at a reference site is
+    carried by a card of the block it refers into, every universe a cell is filled with has a cell,
+    a per-cell datum is given in one block only, a surface card has one pointer entry (transformation
+    *or* periodic surface), a transformation number in a FILL stands inside a cell-block FILL entry. -/
+structure WellFormed (wf : WFile) : Prop where
+  unique : ∀ ck, (wf.numbers ck).Nodup
+  matPos : ∀ m ∈ wf.mats, m.number ≠ 0
+  refs : ∀ s ck n, wf.at s = some (ck, n) → n ∈ wf.numbers ck
+  fillU : ∀ c, c < wf.cells.length → ∀ u ∈ wf.effFill c, ∃ c', c' < wf.cells.length ∧ wf.effU c' = u
+  oneBlockU : wf.uCard.isSome = true → ∀ c ∈ wf.cells, c.u = none
+  oneBlockFill : wf.fillCard.isSome = true → ∀ c ∈ wf.cells, c.fill = []
+  surfOne : ∀ s ∈ wf.surfs, s.tr = none ∨ s.per = none
+  fillTrInFill : ∀ c ∈ wf.cells, c.fillTr ≠ none → c.fill ≠ []
 
-/-- index of the card of object `o` in its block (object identity ↔ card position) -/
-def cardIdx (p : Prob) (ck : CardKind) (o : ObjId) : Nat := (p.coll (kindOf ck)).objs.idxOf o
+theorem optIn_sound {o : Option Int} {l : List Int} (h : optIn o l = true) {n : Int} (hn : o = some n) : n ∈ l := by
+  subst hn
+  simpa [optIn] using h
 
-/-- the cells (card indices) whose universe pointer is the object `u` -/
-def members (p : Prob) (u : ObjId) : List Nat :=
-  (List.range p.cells.objs.length).filter
-    (fun i => decide ((p.cells.objs[i]?).map (fun x => (p.cell x).univ) = some u))
-
-/-- Well-formed linked problem: C06's invariant on the five collections (unique numbers — an
-    invariant of the code, see `C04_wf_step`), every pointer points at a member of the problem, a
-    data-block FILL has one universe per cell (`Fill._tree_value` raises otherwise), material numbers
-    are not 0. -/
-structure WF (p : Prob) : Prop where
-  inv : ∀ k, Inv (p.coll k)
-  owned : ∀ k, (p.coll k).owned = true
-  closed : ∀ s ck o, p.ptr s = some (ck, o) → o ∈ (p.coll (kindOf ck)).objs
-  univ : ∀ c ∈ p.cells.objs, (p.cell c).univ ∈ p.univs.objs
-  fill : ∀ c ∈ p.cells.objs, ∀ u ∈ (p.cell c).fill, u ∈ p.univs.objs
-  fillOne : p.fillData = true → ∀ c ∈ p.cells.objs, (p.cell c).fill.length ≤ 1
-  matPos : ∀ m ∈ p.mats.objs, p.mats.num m ≠ 0
-
-/-! ### list facts -/
-
-theorem inj_of_nodup_map {α β} (f : α → β) : ∀ {l : List α}, (l.map f).Nodup → ∀ {a b}, a ∈ l → b ∈ l → f a = f b → a = b
-  | [], _, _, _, ha, _, _ => by cases ha
-  | x :: t, h, a, b, ha, hb, e => by
-    rw [List.map_cons, List.nodup_cons] at h
-    rcases List.mem_cons.mp ha with ha | ha <;> rcases List.mem_cons.mp hb with hb | hb
-    · rw [ha, hb]
-    · exact absurd (by rw [← ha, e]; exact List.mem_map_of_mem hb) h.1
-    · exact absurd (by rw [← hb, ← e]; exact List.mem_map_of_mem ha) h.1
-    · exact inj_of_nodup_map f h.2 ha hb e
-
-theorem idxOf_map_of_nodup {α β} [DecidableEq α] [DecidableEq β] (f : α → β) :
-    ∀ {l : List α}, (l.map f).Nodup → ∀ {o}, o ∈ l → (l.map f).idxOf (f o) = l.idxOf o
-  | [], _, _, ho => by cases ho
-  | x :: t, h, o, ho => by
-    have hinj := inj_of_nodup_map f h (a := x) (b := o) List.mem_cons_self ho
-    rw [List.map_cons, List.idxOf_cons, List.idxOf_cons]
-    by_cases e : x = o
-    · subst e; simp
-    · have e' : f x ≠ f o := fun h' => e (hinj h')
-      have ht : o ∈ t := by
-        rcases List.mem_cons.mp ho with h1 | h1
-        · exact absurd h1.symm e
-        · exact h1
-      rw [List.map_cons, List.nodup_cons] at h
-      have b1 : (f x == f o) = false := by simp [e']
-      have b2 : (x == o) = false := by simp [e]
-      rw [b1, b2]
-      simp only [cond_false]
-      rw [idxOf_map_of_nodup f h.2 ht]
-
-/-- under unique numbers, MCNP's look-up of the number of a member finds the member's own card -/
-theorem lookup_inverse {l : List ObjId} {num : ObjId → Int} (h : (l.map num).Nodup) {o : ObjId} (ho : o ∈ l) :
-    (l.map num).count (num o) = 1 ∧ (l.map num).idxOf (num o) = l.idxOf o ∧ l[l.idxOf o]? = some o := by
-  refine ⟨?_, idxOf_map_of_nodup num h ho, ?_⟩
-  · rw [List.Nodup.count h]; simp [List.mem_map_of_mem ho]
-  · have hlt : l.idxOf o < l.length := List.idxOf_lt_length_iff.mpr ho
-    rw [List.getElem?_eq_getElem hlt, List.getElem_idxOf hlt]
-
-/-! ### what `write` puts where -/
-
-theorem numbers_write (p : Prob) (ck : CardKind) :
-    (write p).numbers ck = (p.coll (kindOf ck)).objs.map (p.coll (kindOf ck)).num := by
-  cases ck <;>
-    simp [write, WFile.numbers, kindOf, Prob.coll, List.map_map, Function.comp_def, cellUpdateValues,
-      surfaceUpdateValues, thermalUpdateValues]
-
-/-- **write re-reads the pointee's number** at every card-reference site -/
-theorem at_write (p : Prob) (hpos : ∀ m ∈ p.mats.objs, p.mats.num m ≠ 0)
-    (hcl : ∀ s ck o, p.ptr s = some (ck, o) → o ∈ (p.coll (kindOf ck)).objs) (s : Site) :
-    (write p).at s = (p.ptr s).map (fun x => (x.1, p.num (kindOf x.1) x.2)) := by
+theorem refsOK_sound {wf : WFile} (h : wf.refsOK = true) (s : Site) (ck : CardKind) (n : Int)
+    (hs : wf.at s = some (ck, n)) : n ∈ wf.numbers ck := by
+  simp only [WFile.refsOK, Bool.and_eq_true, List.all_eq_true] at h
+  obtain ⟨⟨hc, hsf⟩, hm⟩ := h
   cases s with
-  | geom c i =>
-    simp only [write, WFile.at, Prob.ptr, List.getElem?_map]
-    cases p.cells.objs[c]? with
-    | none => rfl
-    | some o =>
-      simp only [Option.map_some, Option.bind_some, cellUpdateValues, List.getElem?_map]
-      cases (p.cell o).geom[i]? with
-      | none => rfl
+  | geom c j =>
+    simp only [WFile.at] at hs
+    cases hx : wf.cells[c]? with
+    | none => simp [hx] at hs
+    | some x =>
+      simp only [hx, Option.bind_some] at hs
+      cases hl : x.geom[j]? with
+      | none => simp [hl] at hs
       | some l =>
-        cases hl : l.isCell <;> simp [unitHalfSpaceUpdateNode, hl, Prob.num, kindOf, Prob.coll]
+        simp only [hl, Option.map_some, Option.some.injEq, Prod.mk.injEq] at hs
+        obtain ⟨rfl, rfl⟩ := hs
+        have := ((hc x (List.mem_of_getElem? hx)).1.2) l (List.mem_of_getElem? hl)
+        simpa using this
   | cellMat c =>
-    have hc := hcl (.cellMat c)
-    simp only [write, WFile.at, Prob.ptr, List.getElem?_map] at hc ⊢
-    cases hco : p.cells.objs[c]? with
-    | none => rfl
-    | some o =>
-      rw [hco] at hc
-      simp only [Option.map_some, Option.bind_some, cellUpdateValues] at hc ⊢
-      cases hm : (p.cell o).mat with
-      | none => simp
-      | some m =>
-        rw [hm] at hc
-        have hmem : m ∈ p.mats.objs := by
-          have := hc CardKind.mat m rfl
-          simpa [kindOf, Prob.coll] using this
-        simp [hpos m hmem, Prob.num, kindOf, Prob.coll]
+    simp only [WFile.at] at hs
+    cases hx : wf.cells[c]? with
+    | none => simp [hx] at hs
+    | some x =>
+      simp only [hx, Option.bind_some] at hs
+      split at hs
+      · cases hs
+      · rename_i hne
+        simp only [Option.some.injEq, Prod.mk.injEq] at hs
+        obtain ⟨rfl, rfl⟩ := hs
+        have := (hc x (List.mem_of_getElem? hx)).1.1
+        simpa [hne] using this
   | mt m =>
-    simp only [write, WFile.at, Prob.ptr, List.getElem?_map]
-    cases p.mats.objs[m]? with
-    | none => rfl
-    | some o =>
-      simp only [Option.map_some, Option.bind_some, thermalUpdateValues]
-      cases (p.mat o).mt <;> simp [Prob.num, kindOf, Prob.coll]
-  | surfTr s =>
-    simp only [write, WFile.at, Prob.ptr, List.getElem?_map]
-    cases p.surfs.objs[s]? with
-    | none => rfl
-    | some o =>
-      simp only [Option.map_some, Option.bind_some, surfaceUpdateValues]
-      cases (p.surf o).tr <;> simp [Prob.num, kindOf, Prob.coll]
-  | surfPer s =>
-    simp only [write, WFile.at, Prob.ptr, List.getElem?_map]
-    cases p.surfs.objs[s]? with
-    | none => rfl
-    | some o =>
-      simp only [Option.map_some, Option.bind_some, surfaceUpdateValues]
-      cases (p.surf o).tr with
-      | some t => simp
-      | none => cases (p.surf o).per <;> simp [Prob.num, kindOf, Prob.coll]
+    simp only [WFile.at] at hs
+    cases hx : wf.mats[m]? with
+    | none => simp [hx] at hs
+    | some x =>
+      simp only [hx, Option.bind_some, Option.map_eq_some_iff, Prod.mk.injEq] at hs
+      obtain ⟨t, ht, rfl, rfl⟩ := hs
+      exact optIn_sound (hm x (List.mem_of_getElem? hx)) ht
+  | surfTr i =>
+    simp only [WFile.at] at hs
+    cases hx : wf.surfs[i]? with
+    | none => simp [hx] at hs
+    | some x =>
+      simp only [hx, Option.bind_some, Option.map_eq_some_iff, Prod.mk.injEq] at hs
+      obtain ⟨t, ht, rfl, rfl⟩ := hs
+      exact optIn_sound (hsf x (List.mem_of_getElem? hx)).1 ht
+  | surfPer i =>
+    simp only [WFile.at] at hs
+    cases hx : wf.surfs[i]? with
+    | none => simp [hx] at hs
+    | some x =>
+      simp only [hx, Option.bind_some, Option.map_eq_some_iff, Prod.mk.injEq] at hs
+      obtain ⟨t, ht, rfl, rfl⟩ := hs
+      exact optIn_sound (hsf x (List.mem_of_getElem? hx)).2 ht
   | fillTr c =>
-    simp only [write, WFile.at, Prob.ptr, List.getElem?_map]
-    cases p.cells.objs[c]? with
-    | none => rfl
-    | some o =>
-      simp only [Option.map_some, Option.bind_some, cellUpdateValues, fillUpdateCellTransform]
-      split
-      · cases (p.cell o).fillTr <;> simp [Prob.num, kindOf, Prob.coll]
-      · rfl
+    simp only [WFile.at] at hs
+    cases hx : wf.cells[c]? with
+    | none => simp [hx] at hs
+    | some x =>
+      simp only [hx, Option.bind_some, Option.map_eq_some_iff, Prod.mk.injEq] at hs
+      obtain ⟨t, ht, rfl, rfl⟩ := hs
+      exact optIn_sound (hc x (List.mem_of_getElem? hx)).2 ht
 
-/-- **C04_resolve** — in every problem state with unique numbers (C06's invariant), for every
-    modelled card reference: the number written at the site, looked up among the written cards as
-    MCNP does, is found on exactly one card, and that card is the card of the object the reference
-    points at. -/
-theorem C04_resolve (p : Prob) (h : WF p) (s : Site) (ck : CardKind) (o : ObjId)
-    (hs : p.ptr s = some (ck, o)) :
-    ∃ n, (write p).at s = some (ck, n) ∧ resolve (write p) ck n = some (cardIdx p ck o) ∧
-      (p.coll (kindOf ck)).objs[cardIdx p ck o]? = some o := by
-  have hmem := h.closed s ck o hs
-  have hl := lookup_inverse (h.inv (kindOf ck)).nodup hmem
-  refine ⟨p.num (kindOf ck) o, ?_, ?_, hl.2.2⟩
-  · rw [at_write p h.matPos h.closed, hs]; rfl
-  · unfold resolve
-    rw [numbers_write]
-    simp only [Prob.num, cardIdx] at hl ⊢
-    simp only [hl.1, hl.2.1, if_true]
+/-- **C04_wellFormedB_sound** — the decision procedure `WFile.wellFormedB` (Spec/Refs.lean; the driver
+    evaluates it on every file of the differential run) implies `WellFormed`. -/
+theorem C04_wellFormedB_sound (wf : WFile) (h : wf.wellFormedB = true) : WellFormed wf := by
+  simp only [WFile.wellFormedB, Bool.and_eq_true, decide_eq_true_eq] at h
+  obtain ⟨⟨⟨⟨⟨⟨⟨⟨⟨⟨u1, u2⟩, u3⟩, u4⟩, hmp⟩, hrefs⟩, hfill⟩, hbu⟩, hbf⟩, hso⟩, hft⟩ := h
+  refine ⟨?_, ?_, refsOK_sound hrefs, ?_, ?_, ?_, ?_, ?_⟩
+  · intro ck; cases ck <;> assumption
+  · intro m hm
+    have := List.all_eq_true.mp hmp m hm
+    simpa using this
+  · intro c hc u hu
+    have := List.all_eq_true.mp (List.all_eq_true.mp hfill c (List.mem_range.mpr hc)) u hu
+    obtain ⟨c', hc', he⟩ := List.any_eq_true.mp this
+    exact ⟨c', List.mem_range.mp hc', by simpa using he⟩
+  · intro hs c hc
+    simp only [hs, Bool.not_true, Bool.false_or] at hbu
+    have := List.all_eq_true.mp hbu c hc
+    simpa using this
+  · intro hs c hc
+    simp only [hs, Bool.not_true, Bool.false_or] at hbf
+    have := List.all_eq_true.mp hbf c hc
+    simpa using this
+  · intro s hs
+    have := List.all_eq_true.mp hso s hs
+    simpa using this
+  · intro c hc hne
+    have := List.all_eq_true.mp hft c hc
+    simp only [Bool.or_eq_true, Option.isNone_iff_eq_none, Bool.not_eq_true', List.isEmpty_eq_false_iff] at this
+    rcases this with h1 | h1
+    · exact absurd h1 hne
+    · exact h1
 
-/-! ### universes (no cards: a universe is the set of cells that carry its number) -/
+theorem oldU_eq (wf : WFile) (i : Nat) : oldUniverseNumber wf i = wf.effU i := rfl
+theorem oldFill_eq (wf : WFile) (i : Nat) : oldFillNumbers wf i = wf.effFill i := rfl
 
-theorem effU_write (p : Prob) (c : Nat) (o : ObjId) (hc : p.cells.objs[c]? = some o) :
-    (write p).effU c = p.univs.num (p.cell o).univ := by
-  have hlt : c < p.cells.objs.length := by
-    rcases Nat.lt_or_ge c p.cells.objs.length with h | h
+theorem mem_pushUniverses : ∀ (us acc : List Int) (u : Int), (u ∈ us ∨ u ∈ acc) → u ∈ pushUniverses acc us
+  | [], acc, u, h => by
+    rcases h with h | h
+    · cases h
     · exact h
-    · rw [List.getElem?_eq_none h] at hc; cases hc
-  have hmem : o ∈ p.cells.objs := List.mem_of_getElem? hc
-  simp only [WFile.effU, write, List.getElem?_map, hc, Option.map_some, Option.bind_some, cellUpdateValues,
-    universeUpdateCellValues, universeCollectNewValues]
-  by_cases hd : p.uData = false
-  · by_cases hz : p.univs.num (p.cell o).univ = 0
-    · simp [hd, hz]
-    · simp [hd, hz]
-  · have hd' : p.uData = true := by simpa using hd
-    by_cases hany : ∃ x, x ∈ p.cells.objs ∧ ¬ p.univs.num (p.cell x).univ = 0
-    · simp [hd', hany, hc]
-    · have hz : p.univs.num (p.cell o).univ = 0 :=
-        Decidable.byContradiction (fun hne => hany ⟨o, hmem, hne⟩)
-      simp [hd', hany, hz]
+  | x :: t, acc, u, h => by
+    simp only [pushUniverses]
+    split
+    · rename_i hx
+      apply mem_pushUniverses t acc u
+      rcases h with h | h
+      · rcases List.mem_cons.mp h with h | h
+        · exact Or.inr (h ▸ hx)
+        · exact Or.inl h
+      · exact Or.inr h
+    · apply mem_pushUniverses t (acc ++ [x]) u
+      rcases h with h | h
+      · rcases List.mem_cons.mp h with h | h
+        · exact Or.inr (by simp [h])
+        · exact Or.inl h
+      · exact Or.inr (by simp [h])
 
-theorem effFill_write (p : Prob) (hone : p.fillData = true → ∀ c ∈ p.cells.objs, (p.cell c).fill.length ≤ 1)
-    (c : Nat) (o : ObjId) (hc : p.cells.objs[c]? = some o) :
-    (write p).effFill c = (p.cell o).fill.map p.univs.num := by
-  have hmem : o ∈ p.cells.objs := List.mem_of_getElem? hc
-  simp only [WFile.effFill, write, List.getElem?_map, hc, Option.map_some, cellUpdateValues,
-    fillUpdateCellUniverses, fillCollectNewValues]
-  by_cases hd : p.fillData = false
-  · by_cases he : (p.cell o).fill = []
-    · simp [hd, he]
-    · simp [hd, he]
-  · have hd' : p.fillData = true := by simpa using hd
-    have h1 := hone hd' o hmem
-    by_cases hany : ∃ x, x ∈ p.cells.objs ∧ ¬ (p.cell x).fill = []
-    · cases hf : (p.cell o).fill with
-      | nil => simp [hd', hany, hc, hf]
-      | cons u t =>
-        cases t with
-        | nil => simp [hd', hany, hc, hf]
-        | cons v t' => rw [hf] at h1; simp at h1
-    · have he : (p.cell o).fill = [] :=
-        Decidable.byContradiction (fun hne => hany ⟨o, hmem, hne⟩)
-      simp [hd', hany, he]
+theorem univNums_nodup (wf : WFile) : (univNums wf).Nodup := pushUniverses_nodup _ [] List.nodup_nil
 
-/-- **C04_resolve_universe** — the `U` entry of every cell is the number of its universe object, its
-    `FILL` entries are the numbers of the universe objects it is filled with, and the set of cells
-    that carry a universe's number in the written file is exactly the set of cells whose universe
-    pointer is that object (so every `FILL` entry resolves to the same cells as the pointer does). -/
-theorem C04_resolve_universe (p : Prob) (h : WF p) :
-    (∀ c o, p.cells.objs[c]? = some o →
-      (write p).effU c = p.univs.num (p.cell o).univ ∧
-      (write p).effFill c = (p.cell o).fill.map p.univs.num) ∧
-    (∀ u ∈ p.univs.objs, (write p).cellsIn (p.univs.num u) = members p u) := by
-  refine ⟨fun c o hc => ⟨effU_write p c o hc, effFill_write p h.fillOne c o hc⟩, ?_⟩
-  intro u hu
-  unfold WFile.cellsIn members
-  have hlen : (write p).cells.length = p.cells.objs.length := by simp [write]
+theorem effU_mem_univNums (wf : WFile) (c : Nat) (hc : c < wf.cells.length) : wf.effU c ∈ univNums wf := by
+  apply mem_pushUniverses
+  left
+  exact List.mem_map.mpr ⟨c, List.mem_range.mpr hc, rfl⟩
+
+theorem mkColl_nums (nums : List Int) : (mkColl nums).objs.map (mkColl nums).num = nums := by
+  show (List.range nums.length).map (fun o => nums.getD o 0) = nums
+  apply List.ext_getElem
+  · simp
+  · intro i h1 h2
+    simp [List.getD_eq_getElem?_getD]
+    have : i < nums.length := by simpa using h1
+    simp [this]
+
+theorem mkColl_num_of_lookup {nums : List Int} {n : Int} {o : ObjId} (h : lookup (mkColl nums) n = some o) :
+    (mkColl nums).num o = n ∧ o ∈ (mkColl nums).objs := by
+  obtain ⟨hlt, hget⟩ := lookup_some h
+  refine ⟨?_, by simp [mkColl]; exact hlt⟩
+  show nums.getD o 0 = n
+  rw [List.getD_eq_getElem?_getD, hget]; rfl
+
+/-- linking a well-formed file never fails (no `BrokenObjectLinkError`, no `KeyError`) -/
+theorem link_succeeds (wf : WFile) (h : WellFormed wf) : ∃ p, link wf = some p := by
+  have ucell := h.unique .cell; have usurf := h.unique .surf; have umat := h.unique .mat; have utr := h.unique .tr
+  simp only [WFile.numbers] at ucell usurf umat utr
+  obtain ⟨cl, hcl⟩ := mapM_exists
+    (linkCell wf (mkColl (wf.cells.map (·.number))) (mkColl (wf.surfs.map (·.number)))
+      (mkColl (wf.mats.map (·.number))) (mkColl wf.trs) (mkColl (univNums wf)))
+    (List.range wf.cells.length) (by
+      intro i hi
+      have hi' : i < wf.cells.length := List.mem_range.mp hi
+      have hc : wf.cells[i]? = some wf.cells[i] := List.getElem?_eq_getElem hi'
+      apply linkCell_exists hc
+      · intro hne
+        exact lookup_of_mem umat (h.refs (.cellMat i) .mat _ (by simp [WFile.at, hc, hne]))
+      · intro l hl
+        obtain ⟨j, hj, rfl⟩ := List.getElem_of_mem hl
+        have hat : wf.at (.geom i j) = some (if (wf.cells[i].geom[j]).1 then CardKind.cell else CardKind.surf, (wf.cells[i].geom[j]).2) := by
+          simp [WFile.at, hc, List.getElem?_eq_getElem hj]
+        have := h.refs _ _ _ hat
+        cases hb : (wf.cells[i].geom[j]).1
+        · simp only [hb] at this ⊢
+          exact lookup_of_mem usurf this
+        · simp only [hb] at this ⊢
+          exact lookup_of_mem ucell this
+      · exact lookup_of_mem (univNums_nodup wf) (effU_mem_univNums wf i hi')
+      · intro f hf
+        obtain ⟨c', hc', rfl⟩ := h.fillU i hi' f hf
+        exact lookup_of_mem (univNums_nodup wf) (effU_mem_univNums wf c' hc')
+      · intro t ht
+        exact lookup_of_mem utr (h.refs (.fillTr i) .tr _ (by simp [WFile.at, hc, ht])))
+  obtain ⟨sl, hsl⟩ := mapM_exists
+    (linkSurf (mkColl (wf.surfs.map (·.number))) (mkColl wf.trs)) wf.surfs (by
+      intro s hs
+      obtain ⟨j, hj, rfl⟩ := List.getElem_of_mem hs
+      apply linkSurf_exists
+      · intro t ht
+        exact lookup_of_mem utr (h.refs (.surfTr j) .tr _ (by simp [WFile.at, List.getElem?_eq_getElem hj, ht]))
+      · intro t ht
+        exact lookup_of_mem usurf (h.refs (.surfPer j) .surf _ (by simp [WFile.at, List.getElem?_eq_getElem hj, ht])))
+  obtain ⟨ml, hml⟩ := mapM_exists (linkMat (mkColl (wf.mats.map (·.number)))) wf.mats (by
+      intro m hm
+      obtain ⟨j, hj, rfl⟩ := List.getElem_of_mem hm
+      apply linkMat_exists
+      intro t ht
+      exact lookup_of_mem umat (h.refs (.mt j) .mat _ (by simp [WFile.at, List.getElem?_eq_getElem hj, ht])))
+  simp only [link]
+  have hcl' := hcl; have hsl' := hsl; have hml' := hml
+  simp only [univNums] at hcl'
+  rw [hcl', hsl', hml']
+  exact ⟨_, rfl⟩
+
+/-! ### digest of `Linked`: what the pointers of a linked problem are, card by card -/
+
+theorem range_getElem?_lt {n i : Nat} (h : i < n) : (List.range n)[i]? = some i := List.getElem?_range h
+theorem range_getElem?_ge {n i : Nat} (h : ¬ i < n) : (List.range n)[i]? = none := by
+  apply List.getElem?_eq_none; simp; omega
+
+theorem linked_cell {wf : WFile} {p : Prob} (L : Linked wf p) (i : Nat) (hi : i < wf.cells.length) :
+    ∃ c, wf.cells[i]? = some c ∧
+      ((c.mat = 0 ∧ (p.cell i).mat = none) ∨
+        (c.mat ≠ 0 ∧ ∃ m, (p.cell i).mat = some m ∧ p.mats.num m = c.mat ∧ m ∈ p.mats.objs)) ∧
+      ((p.cell i).geom.length = c.geom.length ∧
+        (∀ (j : Nat) a, c.geom[j]? = some a → ∃ l, (p.cell i).geom[j]? = some l ∧ l.isCell = a.1 ∧
+          (if a.1 then p.cells else p.surfs).num l.target = a.2 ∧
+          l.target ∈ (if a.1 then p.cells else p.surfs).objs)) ∧
+      (p.univs.num (p.cell i).univ = wf.effU i ∧ (p.cell i).univ ∈ p.univs.objs) ∧
+      ((p.cell i).fill.map p.univs.num = wf.effFill i ∧ (∀ u ∈ (p.cell i).fill, u ∈ p.univs.objs) ∧
+        (p.cell i).fill.length = (wf.effFill i).length) ∧
+      ((c.fillTr = none ∧ (p.cell i).fillTr = none) ∨
+        ∃ t x, c.fillTr = some t ∧ (p.cell i).fillTr = some x ∧ p.trs.num x = t ∧ x ∈ p.trs.objs) := by
+  have hc := L.cell i hi
+  obtain ⟨c, hci, hmat, hgeom, huniv, hfill, htr⟩ := linkCell_some hc
+  refine ⟨c, hci, ?_, ?_, ?_, ?_, ?_⟩
+  · rcases hmat with ⟨h0, hn⟩ | ⟨h0, m, hl, hm⟩
+    · exact Or.inl ⟨h0, hn⟩
+    · rw [L.mats] at hl ⊢
+      have := mkColl_num_of_lookup hl
+      exact Or.inr ⟨h0, m, hm, this.1, this.2⟩
+  · obtain ⟨hlen, hfw, _⟩ := mapM_some_getElem? _ _ _ hgeom
+    refine ⟨hlen, ?_⟩
+    intro j a ha
+    obtain ⟨l, hl, hget⟩ := hfw j a ha
+    obtain ⟨h1, h2⟩ := linkLeaf_some hl
+    refine ⟨l, hget, h1, ?_⟩
+    cases hb : a.1
+    · simp only [hb] at h2 ⊢
+      rw [L.surfs] at h2 ⊢
+      simpa using mkColl_num_of_lookup h2
+    · simp only [hb] at h2 ⊢
+      rw [L.cells] at h2 ⊢
+      simpa using mkColl_num_of_lookup h2
+  · rw [L.univs] at huniv ⊢
+    rw [oldU_eq] at huniv
+    exact mkColl_num_of_lookup huniv
+  · rw [oldFill_eq] at hfill
+    rw [L.univs] at hfill ⊢
+    refine ⟨?_, ?_, (mapM_some_getElem? _ _ _ hfill).1⟩
+    · have := mapM_some_map (lookup (mkColl (univNums wf))) (mkColl (univNums wf)).num id _ _ hfill
+        (fun a b _ hab => (mkColl_num_of_lookup hab).1)
+      simpa using this
+    · intro u hu
+      obtain ⟨a, _, hab⟩ := mapM_some_mem _ _ _ hfill u hu
+      exact (mkColl_num_of_lookup hab).2
+  · rcases optBind_some htr with ⟨h1, h2⟩ | ⟨t, x, h1, h2, h3⟩
+    · exact Or.inl ⟨h1, h2.symm ▸ rfl⟩
+    · rw [L.trs] at h2 ⊢
+      have := mkColl_num_of_lookup h2
+      exact Or.inr ⟨t, x, h1, h3.symm ▸ rfl, this.1, this.2⟩
+
+theorem linked_opt {nums : List Int} {o : Option Int} {r : Option ObjId}
+    (h : optBind o (lookup (mkColl nums)) = some r) :
+    (o = none ∧ r = none) ∨ ∃ t x, o = some t ∧ r = some x ∧ (mkColl nums).num x = t ∧ x ∈ (mkColl nums).objs := by
+  rcases optBind_some h with ⟨h1, h2⟩ | ⟨t, x, h1, h2, h3⟩
+  · exact Or.inl ⟨h1, h2⟩
+  · have := mkColl_num_of_lookup h2
+    exact Or.inr ⟨t, x, h1, h3, this.1, this.2⟩
+
+theorem linked_surf {wf : WFile} {p : Prob} (L : Linked wf p) (i : Nat) (s : WSurf) (hs : wf.surfs[i]? = some s) :
+    ((s.tr = none ∧ (p.surf i).tr = none) ∨
+      ∃ t x, s.tr = some t ∧ (p.surf i).tr = some x ∧ p.trs.num x = t ∧ x ∈ p.trs.objs) ∧
+    ((s.per = none ∧ (p.surf i).per = none) ∨
+      ∃ t x, s.per = some t ∧ (p.surf i).per = some x ∧ p.surfs.num x = t ∧ x ∈ p.surfs.objs) := by
+  have h := L.surf i s hs
+  rw [L.surfs, L.trs] at h
+  obtain ⟨h1, h2⟩ := linkSurf_some h
+  rw [L.surfs, L.trs]
+  exact ⟨linked_opt h1, linked_opt h2⟩
+
+theorem linked_mat {wf : WFile} {p : Prob} (L : Linked wf p) (i : Nat) (m : WMat) (hm : wf.mats[i]? = some m) :
+    (m.mt = none ∧ (p.mat i).mt = none) ∨
+      ∃ t x, m.mt = some t ∧ (p.mat i).mt = some x ∧ p.mats.num x = t ∧ x ∈ p.mats.objs := by
+  have h := L.mat i m hm
+  rw [L.mats] at h
+  rw [L.mats]
+  exact linked_opt (linkMat_some h)
+
+theorem linked_objs {wf : WFile} {p : Prob} (L : Linked wf p) :
+    p.cells.objs = List.range wf.cells.length ∧ p.surfs.objs = List.range wf.surfs.length ∧
+    p.mats.objs = List.range wf.mats.length ∧ p.trs.objs = List.range wf.trs.length := by
+  rw [L.cells, L.surfs, L.mats, L.trs]
+  simp [mkColl]
+
+/-- the pointer a linked problem holds at a site is the card the file's number at that site is carried
+    by (and nothing where the file has nothing), and it points at a member of the problem -/
+theorem ptr_at {wf : WFile} {p : Prob} (h : WellFormed wf) (L : Linked wf p) (s : Site) :
+    (p.ptr s).map (fun x => (x.1, (p.coll (kindOf x.1)).num x.2)) = wf.at s ∧
+    ∀ ck o, p.ptr s = some (ck, o) → o ∈ (p.coll (kindOf ck)).objs := by
+  obtain ⟨oc, os, om, _⟩ := linked_objs L
+  cases s with
+  | geom c j =>
+    simp only [Prob.ptr, WFile.at, oc]
+    by_cases hc : c < wf.cells.length
+    · obtain ⟨x, hx, _, ⟨hlen, hg⟩, _⟩ := linked_cell L c hc
+      rw [range_getElem?_lt hc, hx]
+      simp only [Option.bind_some]
+      cases hj : x.geom[j]? with
+      | none =>
+        have : (p.cell c).geom[j]? = none := by
+          apply List.getElem?_eq_none
+          have := List.getElem?_eq_none_iff.mp hj
+          omega
+        simp [this]
+      | some a =>
+        obtain ⟨l, hl, hic, hnum, hmem⟩ := hg j a hj
+        rw [hl]
+        cases hb : a.1
+        · simp only [hb] at hic hnum hmem
+          simp at hnum hmem
+          simp [hic, hb, kindOf, Prob.coll, hnum, hmem]
+        · simp only [hb] at hic hnum hmem
+          simp at hnum hmem
+          simp [hic, hb, kindOf, Prob.coll, hnum, hmem]
+    · rw [range_getElem?_ge hc, List.getElem?_eq_none (by omega)]
+      simp
+  | cellMat c =>
+    simp only [Prob.ptr, WFile.at, oc]
+    by_cases hc : c < wf.cells.length
+    · obtain ⟨x, hx, hm, _⟩ := linked_cell L c hc
+      rw [range_getElem?_lt hc, hx]
+      simp only [Option.bind_some]
+      rcases hm with ⟨h0, hn⟩ | ⟨h0, m, hm, hnum, hmem⟩
+      · simp [h0, hn]
+      · simp [h0, hm, kindOf, Prob.coll, hnum, hmem]
+    · rw [range_getElem?_ge hc, List.getElem?_eq_none (by omega)]
+      simp
+  | mt m =>
+    simp only [Prob.ptr, WFile.at, om]
+    by_cases hc : m < wf.mats.length
+    · have hx : wf.mats[m]? = some wf.mats[m] := List.getElem?_eq_getElem hc
+      rw [range_getElem?_lt hc, hx]
+      simp only [Option.bind_some]
+      rcases linked_mat L m _ hx with ⟨h1, h2⟩ | ⟨t, x, h1, h2, hnum, hmem⟩
+      · simp [h1, h2]
+      · simp [h1, h2, kindOf, Prob.coll, hnum, hmem]
+    · rw [range_getElem?_ge hc, List.getElem?_eq_none (by omega)]
+      simp
+  | surfTr i =>
+    simp only [Prob.ptr, WFile.at, os]
+    by_cases hc : i < wf.surfs.length
+    · have hx : wf.surfs[i]? = some wf.surfs[i] := List.getElem?_eq_getElem hc
+      rw [range_getElem?_lt hc, hx]
+      simp only [Option.bind_some]
+      rcases (linked_surf L i _ hx).1 with ⟨h1, h2⟩ | ⟨t, x, h1, h2, hnum, hmem⟩
+      · simp [h1, h2]
+      · simp [h1, h2, kindOf, Prob.coll, hnum, hmem]
+    · rw [range_getElem?_ge hc, List.getElem?_eq_none (by omega)]
+      simp
+  | surfPer i =>
+    simp only [Prob.ptr, WFile.at, os]
+    by_cases hc : i < wf.surfs.length
+    · have hx : wf.surfs[i]? = some wf.surfs[i] := List.getElem?_eq_getElem hc
+      rw [range_getElem?_lt hc, hx]
+      simp only [Option.bind_some]
+      have hone := h.surfOne _ (List.getElem_mem hc)
+      obtain ⟨htr, hper⟩ := linked_surf L i _ hx
+      rcases hper with ⟨h1, h2⟩ | ⟨t, x, h1, h2, hnum, hmem⟩
+      · rcases htr with ⟨h3, h4⟩ | ⟨t', x', h3, h4, _, _⟩
+        · simp [h1, h2, h4]
+        · simp [h1, h2, h4]
+      · have h3 : wf.surfs[i].tr = none := by
+          rcases hone with h' | h'
+          · exact h'
+          · rw [h1] at h'; cases h'
+        rcases htr with ⟨_, h4⟩ | ⟨t', x', h3', _, _, _⟩
+        · simp [h1, h2, h4, kindOf, Prob.coll, hnum, hmem]
+        · rw [h3] at h3'; cases h3'
+    · rw [range_getElem?_ge hc, List.getElem?_eq_none (by omega)]
+      simp
+  | fillTr c =>
+    simp only [Prob.ptr, WFile.at, oc]
+    by_cases hc : c < wf.cells.length
+    · obtain ⟨x, hx, _, _, _, ⟨_, _, hflen⟩, htr⟩ := linked_cell L c hc
+      rw [range_getElem?_lt hc, hx]
+      simp only [Option.bind_some]
+      have hxmem : x ∈ wf.cells := List.mem_of_getElem? hx
+      rcases htr with ⟨h1, h2⟩ | ⟨t, y, h1, h2, hnum, hmem⟩
+      · simp [h1, h2]
+      · have hfne : x.fill ≠ [] := h.fillTrInFill x hxmem (by simp [h1])
+        have hfd : p.fillData = false := by
+          rw [L.fillData]
+          cases hfc : wf.fillCard.isSome
+          · rfl
+          · exact absurd (h.oneBlockFill hfc x hxmem) hfne
+        have hpf : (p.cell c).fill ≠ [] := by
+          intro he
+          rw [he] at hflen
+          have : wf.effFill c = x.fill := by simp [WFile.effFill, hx, hfne]
+          rw [this] at hflen
+          exact hfne (List.length_eq_zero_iff.mp hflen.symm)
+        simp [hfd, hpf, h1, h2, kindOf, Prob.coll, hnum, hmem]
+    · rw [range_getElem?_ge hc, List.getElem?_eq_none (by omega)]
+      simp
+
+theorem effFill_length_le_one {wf : WFile} (h : WellFormed wf) (hd : wf.fillCard.isSome = true) (c : Nat) :
+    (wf.effFill c).length ≤ 1 := by
+  unfold WFile.effFill
+  cases hx : wf.cells[c]? with
+  | none => simp
+  | some x =>
+    have hxe : x.fill = [] := h.oneBlockFill hd x (List.mem_of_getElem? hx)
+    simp only [hxe, ne_eq, not_true_eq_false, if_false]
+    cases wf.fillCard with
+    | none => simp
+    | some l =>
+      simp only
+      split <;> simp
+
+/-- **C04_link_establishes_wf** — linking a well-formed file yields a problem that satisfies the WHOLE of
+    `WF`: unique numbers in all five collections (C06's `Inv`), every pointer points at a member of the
+    problem, a data-block FILL has one universe per cell, material numbers are not 0.  With
+    `C04_wf_step` every state reachable from a read file by number assignments is well-formed. -/
+theorem C04_link_establishes_wf (wf : WFile) (p : Prob) (h : WellFormed wf) (hl : link wf = some p) : WF p := by
+  have L := link_linked hl
+  obtain ⟨oc, os, om, ot⟩ := linked_objs L
+  refine ⟨?_, ?_, fun s => (ptr_at h L s).2, ?_, ?_, ?_, ?_⟩
+  · intro k
+    cases k <;> simp only [Prob.coll]
+    · rw [L.cells]; exact mkColl_inv' _ (h.unique .cell)
+    · rw [L.surfs]; exact mkColl_inv' _ (h.unique .surf)
+    · rw [L.mats]; exact mkColl_inv' _ (h.unique .mat)
+    · rw [L.trs]; exact mkColl_inv' _ (h.unique .tr)
+    · rw [L.univs]; exact mkColl_inv' _ (univNums_nodup wf)
+  · intro k
+    cases k <;> simp only [Prob.coll]
+    · rw [L.cells]; rfl
+    · rw [L.surfs]; rfl
+    · rw [L.mats]; rfl
+    · rw [L.trs]; rfl
+    · rw [L.univs]; rfl
+  · intro c hc
+    rw [oc] at hc
+    obtain ⟨_, _, _, _, hu, _⟩ := linked_cell L c (List.mem_range.mp hc)
+    exact hu.2
+  · intro c hc u hu
+    rw [oc] at hc
+    obtain ⟨_, _, _, _, _, hf, _⟩ := linked_cell L c (List.mem_range.mp hc)
+    exact hf.2.1 u hu
+  · intro hd c hc
+    rw [oc] at hc
+    rw [L.fillData] at hd
+    obtain ⟨_, _, _, _, _, hf, _⟩ := linked_cell L c (List.mem_range.mp hc)
+    rw [hf.2.2]
+    exact effFill_length_le_one h hd c
+  · intro m hm
+    rw [om] at hm
+    have hlt : m < wf.mats.length := List.mem_range.mp hm
+    rw [L.mats]
+    show (wf.mats.map (·.number)).getD m 0 ≠ 0
+    rw [List.getD_eq_getElem?_getD, List.getElem?_map, List.getElem?_eq_getElem hlt]
+    exact h.matPos _ (List.getElem_mem hlt)
+
+theorem resolve_congr {w1 w2 : WFile} {ck : CardKind} (h : w1.numbers ck = w2.numbers ck) (n : Int) :
+    resolve w1 ck n = resolve w2 ck n := by
+  unfold resolve; rw [h]
+
+theorem cellsIn_congr {w1 w2 : WFile} (hlen : w1.cells.length = w2.cells.length)
+    (h : ∀ c, c < w2.cells.length → w1.effU c = w2.effU c) (n : Int) : w1.cellsIn n = w2.cellsIn n := by
+  unfold WFile.cellsIn
   rw [hlen]
   apply List.filter_congr
   intro i hi
-  have hlt : i < p.cells.objs.length := List.mem_range.mp hi
-  have hc : p.cells.objs[i]? = some p.cells.objs[i] := List.getElem?_eq_getElem hlt
-  have hmem : p.cells.objs[i] ∈ p.cells.objs := List.getElem_mem hlt
-  rw [effU_write p i _ hc, hc]
-  simp only [Option.map_some, Option.some.injEq]
-  have hinj := inj_of_nodup_map p.univs.num (h.inv .univ).nodup (h.univ _ hmem) hu
-  by_cases e : (p.cell p.cells.objs[i]).univ = u
-  · simp [e]
-  · have : p.univs.num (p.cell p.cells.objs[i]).univ ≠ p.univs.num u := fun h' => e (hinj h')
-    simp [e, this]
+  rw [h i (List.mem_range.mp hi)]
 
-/-! ### the frame: what one assignment changes -/
-
-/-- `p'` has the same objects, in the same order, with the same pointers as `p` (numbers may differ) -/
-structure SameShape (p p' : Prob) : Prop where
-  objs : ∀ k, (p'.coll k).objs = (p.coll k).objs
-  owned : ∀ k, (p'.coll k).owned = (p.coll k).owned
-  cell : p'.cell = p.cell
-  surf : p'.surf = p.surf
-  mat : p'.mat = p.mat
-  uData : p'.uData = p.uData
-  fillData : p'.fillData = p.fillData
-
-theorem SameShape.refl (p : Prob) : SameShape p p := ⟨fun _ => rfl, fun _ => rfl, rfl, rfl, rfl, rfl, rfl⟩
-
-theorem SameShape.trans {a b c : Prob} (h1 : SameShape a b) (h2 : SameShape b c) : SameShape a c :=
-  ⟨fun k => (h2.objs k).trans (h1.objs k), fun k => (h2.owned k).trans (h1.owned k), h2.cell.trans h1.cell,
-   h2.surf.trans h1.surf, h2.mat.trans h1.mat, h2.uData.trans h1.uData, h2.fillData.trans h1.fillData⟩
-
-theorem SameShape.ptr {p p' : Prob} (h : SameShape p p') : p'.ptr = p.ptr := by
-  funext s
-  have hc := h.objs .cell; have hs := h.objs .surf; have hm := h.objs .mat
-  simp only [Prob.coll] at hc hs hm
-  cases s <;> simp [Prob.ptr, hc, hs, hm, h.cell, h.surf, h.mat, h.fillData]
-
-theorem coll_setColl (p : Prob) (k k' : Kind) (s : St) :
-    (p.setColl k s).coll k' = if k' = k then s else p.coll k' := by
-  cases k <;> cases k' <;> simp [Prob.setColl, Prob.coll]
-
-theorem setNumber_shape (p : Prob) (k : Kind) (o : ObjId) (n : Int) : SameShape p (setNumber p k o n).1 := by
-  have ho := setNumber_objs (p.coll k) o n
-  refine ⟨?_, ?_, ?_, ?_, ?_, ?_, ?_⟩
-  · intro k'
-    simp only [setNumber, coll_setColl]
-    split
-    · rename_i e; subst e; exact ho.1
-    · rfl
-  · intro k'
-    simp only [setNumber, coll_setColl]
-    split
-    · rename_i e; subst e; exact ho.2.2
-    · rfl
-  all_goals (cases k <;> rfl)
-
-theorem setNumber_ok_pos {s : St} {o : ObjId} {n : Int} (h : (Collection.setNumber s o n).2 = .ok) : 0 < n := by
-  unfold Collection.setNumber at h
-  split at h
-  · simp at h
-  · omega
-
-/-- the numbers after one assignment: the assigned object of the assigned kind carries `n` iff the
-    setter accepted, every other number of every kind is what it was -/
-theorem setNumber_num (p : Prob) (k : Kind) (o : ObjId) (n : Int) (k' : Kind) (x : ObjId) :
-    (setNumber p k o n).1.num k' x =
-      if (setNumber p k o n).2 = .ok ∧ k' = k ∧ x = o then n else p.num k' x := by
-  simp only [setNumber, Prob.num, coll_setColl]
-  by_cases e : k' = k
-  · subst e
-    simp only [if_true, true_and]
-    by_cases hok : (Collection.setNumber (p.coll k') o n).2 = .ok
-    · rw [setNumber_ok_num hok]; simp [hok]
-    · rw [(setNumber_err_core hok).num]; simp [hok]
-  · simp [e]
-
-/-- **C04_wf_step** — well-formedness (in particular: unique numbers in all five collections) is an
-    invariant of number assignment, accepted or rejected.  The uniqueness part is C06's `C06_step`. -/
-theorem C04_wf_step (p : Prob) (h : WF p) (op : Op) : WF (step p op).1 := by
-  obtain ⟨k, o, n⟩ := op
-  have hsh := setNumber_shape p k o n
-  show WF (setNumber p k o n).1
-  refine ⟨?_, ?_, ?_, ?_, ?_, ?_, ?_⟩
-  · intro k'
-    simp only [setNumber, coll_setColl]
-    split
-    · rename_i e; subst e
-      exact C06_step (p.coll k') (.setNumber o n) (h.inv k') (owned_admissible (h.inv k') (h.owned k') _)
-    · exact h.inv k'
-  · intro k'; rw [hsh.owned]; exact h.owned k'
-  · intro s ck t hs
-    rw [hsh.ptr] at hs
-    rw [hsh.objs]; exact h.closed s ck t hs
-  · intro c hc
-    have h1 := hsh.objs .cell; have h2 := hsh.objs .univ
-    simp only [Prob.coll] at h1 h2
-    rw [h1] at hc; rw [h2, hsh.cell]; exact h.univ c hc
-  · intro c hc u hu
-    have h1 := hsh.objs .cell; have h2 := hsh.objs .univ
-    simp only [Prob.coll] at h1 h2
-    rw [h1] at hc; rw [hsh.cell] at hu; rw [h2]; exact h.fill c hc u hu
-  · intro hd c hc
-    have h1 := hsh.objs .cell
-    simp only [Prob.coll] at h1
-    rw [h1] at hc; rw [hsh.fillData] at hd; rw [hsh.cell]; exact h.fillOne hd c hc
-  · intro m hm
-    have h1 := hsh.objs .mat
-    simp only [Prob.coll] at h1
-    rw [h1] at hm
-    have := setNumber_num p k o n .mat m
-    simp only [Prob.num, Prob.coll] at this
-    rw [this]
-    split
-    · rename_i hc
-      have := setNumber_ok_pos (s := p.coll k) hc.1
-      omega
-    · exact h.matPos m hm
-
-theorem run_wf (p : Prob) (h : WF p) (ops : List Op) : WF (run p ops) ∧ SameShape p (run p ops) := by
-  induction ops generalizing p with
-  | nil => exact ⟨h, SameShape.refl p⟩
-  | cons op t ih =>
-    have h1 := C04_wf_step p h op
-    have := ih (step p op).1 h1
-    exact ⟨this.1, (setNumber_shape p op.kind op.obj op.n).trans this.2⟩
-
-/-- **C04_only** — one assignment `o.number = n` (kind `k`) changes, in the written file, the own
-    number of `o` and the text of exactly the references to `o` — and only if the setter accepted it:
-    every card keeps its position; every card number and every number written at a reference site is
-    the old one unless the card / the pointer at the site is `o` itself; every `U`/`FILL` entry is
-    the old one unless its universe object is `o`. -/
-theorem C04_only (p : Prob) (h : WF p) (k : Kind) (o : ObjId) (n : Int) :
-    let p' := (setNumber p k o n).1
-    let hit := fun (k' : Kind) (x : ObjId) => (setNumber p k o n).2 = .ok ∧ k' = k ∧ x = o
-    SameShape p p' ∧
-    (∀ ck, (write p').numbers ck =
-      (p.coll (kindOf ck)).objs.map (fun x => if hit (kindOf ck) x then n else p.num (kindOf ck) x)) ∧
-    (∀ s, (write p').at s =
-      (p.ptr s).map (fun x => (x.1, if hit (kindOf x.1) x.2 then n else p.num (kindOf x.1) x.2))) ∧
-    (∀ c x, p.cells.objs[c]? = some x →
-      (write p').effU c = (if hit .univ (p.cell x).univ then n else p.univs.num (p.cell x).univ) ∧
-      (write p').effFill c = (p.cell x).fill.map (fun u => if hit .univ u then n else p.univs.num u)) := by
-  intro p' hit
-  have hsh := setNumber_shape p k o n
-  have hwf : WF p' := C04_wf_step p h ⟨k, o, n⟩
-  refine ⟨hsh, ?_, ?_, ?_⟩
-  · intro ck
-    rw [numbers_write, hsh.objs]
-    apply List.map_congr_left
-    intro x _
-    exact setNumber_num p k o n (kindOf ck) x
+/-- **C04_unedited_roundtrip** — the unedited round trip of the reference structure: the problem linked
+    from a well-formed file writes, card by card, the card numbers of the file, at every reference site
+    the number the file has there (and nothing where the file has nothing), for every cell the universe
+    it is in and the universes it is filled with (matrix entries included); so every look-up — of cards
+    and of universes — gives in the written file what it gives in the original. -/
+theorem C04_unedited_roundtrip (wf : WFile) (p : Prob) (h : WellFormed wf) (hl : link wf = some p) :
+    (∀ ck, (write p).numbers ck = wf.numbers ck) ∧
+    (∀ s, (write p).at s = wf.at s) ∧
+    (∀ c, c < wf.cells.length → (write p).effU c = wf.effU c ∧ (write p).effFill c = wf.effFill c) ∧
+    (∀ n, (write p).cellsIn n = wf.cellsIn n) ∧
+    (∀ ck n, resolve (write p) ck n = resolve wf ck n) := by
+  have L := link_linked hl
+  have hwf := C04_link_establishes_wf wf p h hl
+  obtain ⟨oc, _, _, _⟩ := linked_objs L
+  have hnum : ∀ ck, (write p).numbers ck = wf.numbers ck := by
+    intro ck
+    rw [numbers_write]
+    cases ck <;> simp only [kindOf, Prob.coll, WFile.numbers]
+    · rw [L.cells]; exact mkColl_nums _
+    · rw [L.surfs]; exact mkColl_nums _
+    · rw [L.mats]; exact mkColl_nums _
+    · rw [L.trs]; exact mkColl_nums _
+  have hu : ∀ c, c < wf.cells.length → (write p).effU c = wf.effU c ∧ (write p).effFill c = wf.effFill c := by
+    intro c hc
+    have hobj : p.cells.objs[c]? = some c := by rw [oc]; exact range_getElem?_lt hc
+    obtain ⟨_, _, _, _, hun, hf, _⟩ := linked_cell L c hc
+    exact ⟨by rw [effU_write p c c hobj]; exact hun.1, by rw [effFill_write p hwf.fillOne c c hobj]; exact hf.1⟩
+  refine ⟨hnum, ?_, hu, ?_, fun ck n => resolve_congr (hnum ck) n⟩
   · intro s
-    rw [at_write p' hwf.matPos hwf.closed, hsh.ptr]
-    cases p.ptr s with
-    | none => rfl
-    | some x => simp only [Option.map_some]; rw [setNumber_num]
-  · intro c x hc
-    have hc' : p'.cells.objs[c]? = some x := by
-      have := hsh.objs .cell; simp only [Prob.coll] at this; rw [this]; exact hc
-    have hu := setNumber_num p k o n .univ
-    simp only [Prob.num, Prob.coll] at hu
-    refine ⟨?_, ?_⟩
-    · rw [effU_write p' c x hc', hsh.cell, hu]
-    · rw [effFill_write p' hwf.fillOne c x hc', hsh.cell]
-      apply List.map_congr_left
-      intro u _
-      exact hu u
+    rw [at_write p hwf.matPos hwf.closed]
+    exact (ptr_at h L s).1
+  · intro n
+    apply cellsIn_congr
+    · simp [write, oc]
+    · intro c hc; exact (hu c hc).1
 
-/-- **C04_history** — for EVERY sequence of number assignments (accepted or rejected by the setters;
-    no bound on its length) and every card reference of the problem: the cards keep their positions
-    (object identity = card index), and the number written at the site after the history resolves —
-    by MCNP's look-up in the written file — to the same card as the number written before it: the
-    card of the object the reference points at. -/
-theorem C04_history (p : Prob) (h : WF p) (ops : List Op) :
-    (∀ k, ((run p ops).coll k).objs = (p.coll k).objs) ∧
-    ∀ s ck o, p.ptr s = some (ck, o) →
-      ∃ n n', (write p).at s = some (ck, n) ∧ (write (run p ops)).at s = some (ck, n') ∧
-        resolve (write (run p ops)) ck n' = resolve (write p) ck n ∧
-        resolve (write p) ck n = some (cardIdx p ck o) := by
-  obtain ⟨hwf, hsh⟩ := run_wf p h ops
-  refine ⟨hsh.objs, ?_⟩
-  intro s ck o hs
-  obtain ⟨n, h1, h2, _⟩ := C04_resolve p h s ck o hs
-  obtain ⟨n', h1', h2', _⟩ := C04_resolve (run p ops) hwf s ck o (by rw [hsh.ptr]; exact hs)
-  refine ⟨n, n', h1, h1', ?_, h2⟩
-  rw [h2', h2]
-  simp [cardIdx, hsh.objs]
-
-/-- **C04_history_universe** — the same for universes: after every history the cells that carry, in
-    the written file, the number written at a cell's `U` entry / at any of its `FILL` entries are
-    the same cells as before the history. -/
-theorem C04_history_universe (p : Prob) (h : WF p) (ops : List Op) (c : Nat) (x : ObjId)
-    (hc : p.cells.objs[c]? = some x) :
-    (write (run p ops)).cellsIn ((write (run p ops)).effU c) = (write p).cellsIn ((write p).effU c) ∧
-    (write (run p ops)).effFill c = (p.cell x).fill.map (run p ops).univs.num ∧
-    (write p).effFill c = (p.cell x).fill.map p.univs.num ∧
-    ∀ u ∈ (p.cell x).fill,
-      (write (run p ops)).cellsIn ((run p ops).univs.num u) = (write p).cellsIn (p.univs.num u) := by
-  obtain ⟨hwf, hsh⟩ := run_wf p h ops
-  have hcells := hsh.objs .cell
-  have hunivs := hsh.objs .univ
-  simp only [Prob.coll] at hcells hunivs
-  have hc' : (run p ops).cells.objs[c]? = some x := by rw [hcells]; exact hc
-  have hmem : x ∈ p.cells.objs := List.mem_of_getElem? hc
-  have r0 := C04_resolve_universe p h
-  have r1 := C04_resolve_universe (run p ops) hwf
-  have hmm : ∀ u, members (run p ops) u = members p u := by
-    intro u; simp [members, hcells, hsh.cell]
-  refine ⟨?_, ?_, (r0.1 c x hc).2, ?_⟩
-  · rw [(r1.1 c x hc').1, (r0.1 c x hc).1, hsh.cell]
-    rw [r1.2 _ (by rw [hunivs]; exact h.univ x hmem), r0.2 _ (h.univ x hmem), hmm]
-  · rw [(r1.1 c x hc').2, hsh.cell]
-  · intro u hu
-    rw [r1.2 u (by rw [hunivs]; exact h.fill x hmem u hu), r0.2 u (h.fill x hmem u hu), hmm]
-
-/-! ### swap through a temporary number -/
-
-theorem setNumber_ok_of_fresh {s : St} {o : ObjId} {n : Int} (hn : 0 < n) (hf : n ∉ s.objs.map s.num) :
-    (Collection.setNumber s o n).2 = .ok := by
-  unfold Collection.setNumber
-  have : ¬ n ≤ 0 := by omega
-  simp only [this, if_false]
-  split
-  · have hck : (checkNumber s n).2 = .ok := by
-      rcases checkNumber_out s n with h | h
-      · exact h
-      · exfalso
-        unfold checkNumber at h
-        split at h
-        rename_i s1 found heq
-        have h2 : found = (inNumbers s n).2 := by rw [heq]
-        split at h
-        · rename_i hfound
-          rw [h2] at hfound
-          exact hf ((inNumbers_found s n).mp hfound)
-        · simp at h
-    simp [hck]
-  · rfl
-
-/-- **C04_swap** — `a.number = tmp; b.number = (old a); a.number = (old b)` with a free temporary
-    number is accepted at every step and swaps the two numbers: afterwards `a` carries `b`'s old
-    number, `b` carries `a`'s, every other number of every kind is unchanged, and the objects and
-    pointers are the same — so by `C04_only`/`at_write` the written file has the two numbers swapped
-    on the two cards and at every reference to either, and nothing else changed. -/
-theorem C04_swap (p : Prob) (h : WF p) (k : Kind) (a b : ObjId) (tmp : Int)
-    (ha : a ∈ (p.coll k).objs) (hb : b ∈ (p.coll k).objs) (hab : a ≠ b)
-    (hpa : 0 < p.num k a) (hpb : 0 < p.num k b)
-    (htmp : 0 < tmp) (hfree : tmp ∉ (p.coll k).objs.map (p.coll k).num) :
-    let ops : List Op := [⟨k, a, tmp⟩, ⟨k, b, p.num k a⟩, ⟨k, a, p.num k b⟩]
-    let p' := run p ops
-    SameShape p p' ∧ WF p' ∧
-    ∀ k' x, p'.num k' x =
-      if k' = k ∧ x = a then p.num k b else if k' = k ∧ x = b then p.num k a else p.num k' x := by
-  intro ops p'
-  obtain ⟨hwf, hsh⟩ := run_wf p h ops
-  refine ⟨hsh, hwf, ?_⟩
-  have hinj := @inj_of_nodup_map _ _ (p.coll k).num _ (h.inv k).nodup
-  -- step 1
-  have ok1 : (setNumber p k a tmp).2 = .ok := setNumber_ok_of_fresh htmp hfree
-  have n1 := setNumber_num p k a tmp
-  simp only [ok1, true_and] at n1
-  generalize hp1 : (setNumber p k a tmp).1 = p1 at n1
-  have sh1 : SameShape p p1 := hp1 ▸ setNumber_shape p k a tmp
-  -- step 2: a's old number is free now
-  have f2 : p.num k a ∉ (p1.coll k).objs.map (p1.coll k).num := by
-    intro hm
-    obtain ⟨x, hx, hxe⟩ := List.mem_map.mp hm
-    rw [sh1.objs] at hx
-    have := n1 k x
-    simp only [Prob.num] at this hxe
-    rw [this] at hxe
-    by_cases e : x = a
-    · subst e
-      simp at hxe
-      exact hfree (hxe ▸ List.mem_map_of_mem ha)
-    · simp [e] at hxe
-      exact e (hinj hx ha hxe)
-  have ok2 : (setNumber p1 k b (p.num k a)).2 = .ok := setNumber_ok_of_fresh hpa f2
-  have n2 := setNumber_num p1 k b (p.num k a)
-  simp only [ok2, true_and] at n2
-  generalize hp2 : (setNumber p1 k b (p.num k a)).1 = p2 at n2
-  have sh2 : SameShape p1 p2 := hp2 ▸ setNumber_shape p1 k b (p.num k a)
-  -- step 3: b's old number is free now
-  have f3 : p.num k b ∉ (p2.coll k).objs.map (p2.coll k).num := by
-    intro hm
-    obtain ⟨x, hx, hxe⟩ := List.mem_map.mp hm
-    rw [sh2.objs, sh1.objs] at hx
-    have e2 := n2 k x
-    have e1 := n1 k x
-    simp only [Prob.num] at e1 e2 hxe
-    rw [e2] at hxe
-    by_cases eb : x = b
-    · subst eb
-      simp at hxe
-      exact hab (hinj ha hx hxe)
-    · simp [eb] at hxe
-      rw [e1] at hxe
-      by_cases ea : x = a
-      · subst ea
-        simp at hxe
-        exact hfree (hxe ▸ List.mem_map_of_mem hb)
-      · simp [ea] at hxe
-        exact eb (hinj hx hb hxe)
-  have ok3 : (setNumber p2 k a (p.num k b)).2 = .ok := setNumber_ok_of_fresh hpb f3
-  have n3 := setNumber_num p2 k a (p.num k b)
-  simp only [ok3, true_and] at n3
-  intro k' x
-  have hp' : p' = (setNumber p2 k a (p.num k b)).1 := by
-    show run p ops = _
-    simp only [ops, run, List.foldl, step]
-    rw [hp1, hp2]
-  rw [hp', n3, n2, n1]
-  by_cases ek : k' = k
-  · subst ek
-    by_cases ea : x = a
-    · simp [ea]
-    · by_cases eb : x = b
-      · simp [ea, eb]
-      · simp [ea, eb]
-  · simp [ek]
-
-/-! ### linking: the collections MontePy builds from a file with unique numbers satisfy C06's invariant -/
-
-theorem mkColl_inv (nums : List Int) (h : nums.Nodup) : Inv (mkColl nums) ∧ (mkColl nums).owned = true := by
-  refine ⟨⟨?_, ?_, ?_⟩, rfl⟩
-  · show ((List.range nums.length).map (fun o => nums.getD o 0)).Nodup
-    have : (List.range nums.length).map (fun o => nums.getD o 0) = nums := by
-      apply List.ext_getElem
-      · simp
-      · intro i h1 h2
-        simp [List.getD_eq_getElem?_getD]
-        have : i < nums.length := by simpa using h1
-        simp [this]
-    rw [this]; exact h
-  · intro x hx; cases hx
-  · intro _ o _; rfl
-
-theorem pushUniverses_nodup : ∀ (us acc : List Int), acc.Nodup → (pushUniverses acc us).Nodup
-  | [], acc, h => h
-  | u :: t, acc, h => by
-    simp only [pushUniverses]
-    split
-    · exact pushUniverses_nodup t acc h
-    · rename_i hu
-      apply pushUniverses_nodup t
-      rw [List.nodup_append]
-      refine ⟨h, by simp, ?_⟩
-      intro a ha b hb
-      simp at hb; subst hb
-      exact fun e => hu (e ▸ ha)
-
-/-- **C04_link_wf** — the five collections of a problem linked from a file whose cards carry unique
-    numbers per block satisfy C06's invariant and are owned by the problem: the hypothesis of
-    `C04_resolve`/`C04_history` is established by reading, and kept by `C04_wf_step`.
-    (The universes collection has unique numbers whatever the file says.) -/
-theorem C04_link_wf (wf : WFile) (p : Prob) (hl : link wf = some p)
-    (hu : ∀ ck, (wf.numbers ck).Nodup) :
-    ∀ k, Inv (p.coll k) ∧ (p.coll k).owned = true := by
-  simp only [link] at hl
-  split at hl
-  · cases hl
-    intro k
-    cases k
-    · exact mkColl_inv _ (hu .cell)
-    · exact mkColl_inv _ (hu .surf)
-    · exact mkColl_inv _ (hu .mat)
-    · exact mkColl_inv _ (hu .tr)
-    · exact mkColl_inv _ (pushUniverses_nodup _ [] List.nodup_nil)
-  · cases hl
-
-/-! ### Non-vacuity: a concrete problem with every kind of reference satisfies the hypotheses -/
-
-/-- cells 10, 20 (cell 20 = `2 … -1 #10 u=5`, cell 10 filled with universe 5 through transform 3),
-    surfaces 1 (transform 3) and 2 (periodic with 1), material 7 with MT, transform 3 -/
-def exFile : WFile :=
-  { cells := [{ number := 10, mat := 7, geom := [(false, 1), (false, 2)], u := none, fill := [5], fillTr := some 3 },
-              { number := 20, mat := 0, geom := [(false, 1), (true, 10)], u := some 5, fill := [], fillTr := none }]
-    surfs := [{ number := 1, tr := some 3, per := none }, { number := 2, tr := none, per := some 1 }]
-    mats := [{ number := 7, mt := some 7 }]
-    trs := [3]
-    uCard := none
-    fillCard := none }
-
-/-- the linked problem of `exFile`, written out (object `i` of a kind is card `i`; universes: 0 ↦ 0, 1 ↦ 5) -/
-def exProb : Prob :=
-  { cells := mkColl [10, 20], surfs := mkColl [1, 2], mats := mkColl [7], trs := mkColl [3], univs := mkColl [0, 5]
-    cell := fun o => if o = 0 then { mat := some 0, geom := [⟨false, 0⟩, ⟨false, 1⟩], univ := 0, fill := [1], fillTr := some 0 }
-                     else { mat := none, geom := [⟨false, 0⟩, ⟨true, 0⟩], univ := 1, fill := [], fillTr := none }
-    surf := fun o => if o = 0 then { tr := some 0, per := none } else { tr := none, per := some 0 }
-    mat := fun _ => { mt := some 0 }
-    uData := false, fillData := false }
-
-example : (link exFile).map write = some exFile := by decide
-example : write exProb = exFile := by decide
-
-theorem exProb_wf : WF exProb := by
-  refine ⟨?_, ?_, ?_, ?_, ?_, ?_, ?_⟩
-  · intro k; cases k <;> exact (mkColl_inv _ (by decide)).1
-  · intro k; cases k <;> rfl
-  · intro s ck o hs
-    cases s with
-    | geom c i =>
-      match c, i with
-      | 0, 0 | 0, 1 | 1, 0 | 1, 1 => simp [Prob.ptr, exProb, mkColl] at hs; obtain ⟨rfl, rfl⟩ := hs; decide
-      | 0, (i + 2) | 1, (i + 2) => simp [Prob.ptr, exProb, mkColl] at hs
-      | (c + 2), i => simp [Prob.ptr, exProb, mkColl] at hs
-    | cellMat c =>
-      match c with
-      | 0 => simp [Prob.ptr, exProb, mkColl] at hs; obtain ⟨rfl, rfl⟩ := hs; decide
-      | 1 => simp [Prob.ptr, exProb, mkColl] at hs
-      | (c + 2) => simp [Prob.ptr, exProb, mkColl] at hs
-    | mt m =>
-      match m with
-      | 0 => simp [Prob.ptr, exProb, mkColl] at hs; obtain ⟨rfl, rfl⟩ := hs; decide
-      | (m + 1) => simp [Prob.ptr, exProb, mkColl] at hs
-    | surfTr s =>
-      match s with
-      | 0 => simp [Prob.ptr, exProb, mkColl] at hs; obtain ⟨rfl, rfl⟩ := hs; decide
-      | 1 => simp [Prob.ptr, exProb, mkColl] at hs
-      | (s + 2) => simp [Prob.ptr, exProb, mkColl] at hs
-    | surfPer s =>
-      match s with
-      | 0 => simp [Prob.ptr, exProb, mkColl] at hs
-      | 1 => simp [Prob.ptr, exProb, mkColl] at hs; obtain ⟨rfl, rfl⟩ := hs; decide
-      | (s + 2) => simp [Prob.ptr, exProb, mkColl] at hs
-    | fillTr c =>
-      match c with
-      | 0 => simp [Prob.ptr, exProb, mkColl] at hs; obtain ⟨rfl, rfl⟩ := hs; decide
-      | 1 => simp [Prob.ptr, exProb, mkColl] at hs
-      | (c + 2) => simp [Prob.ptr, exProb, mkColl] at hs
+/-- **C04_end_to_end** — for EVERY well-formed file and EVERY finite sequence of number assignments
+    (valid ones are applied, invalid ones are rejected and change nothing): MontePy links the file, and in
+    the file written after the history
+    * every block has as many cards as in the original (card `i` is still object `i`),
+    * at every site where the original has a reference a reference is written, and MCNP's look-up of the
+      number written there finds exactly one card — the card (index) the original's number resolved to,
+    * where the original has no reference none is written,
+    * the cells in the universe of every cell, and in each universe a cell is filled with (single or
+      matrix entry `j`), are the same cells as in the original.
+    No hypothesis besides `WellFormed wf` remains between reading, renumbering and writing. -/
+theorem C04_end_to_end (wf : WFile) (h : WellFormed wf) :
+    ∃ p0, link wf = some p0 ∧ ∀ ops : List Op,
+      (∀ ck, ((write (run p0 ops)).numbers ck).length = (wf.numbers ck).length) ∧
+      (∀ s ck n, wf.at s = some (ck, n) → ∃ n', (write (run p0 ops)).at s = some (ck, n') ∧
+        resolve (write (run p0 ops)) ck n' = resolve wf ck n ∧ (resolve wf ck n).isSome = true) ∧
+      (∀ s, wf.at s = none → (write (run p0 ops)).at s = none) ∧
+      (∀ c, c < wf.cells.length →
+        (write (run p0 ops)).cellsIn ((write (run p0 ops)).effU c) = wf.cellsIn (wf.effU c) ∧
+        ((write (run p0 ops)).effFill c).length = (wf.effFill c).length ∧
+        ∀ (j : Nat) u, (wf.effFill c)[j]? = some u →
+          ∃ u', ((write (run p0 ops)).effFill c)[j]? = some u' ∧ (write (run p0 ops)).cellsIn u' = wf.cellsIn u) := by
+  obtain ⟨p0, hl⟩ := link_succeeds wf h
+  refine ⟨p0, hl, ?_⟩
+  intro ops
+  have L := link_linked hl
+  have hwf0 := C04_link_establishes_wf wf p0 h hl
+  obtain ⟨hnum, hat, hu, hcin, hres⟩ := C04_unedited_roundtrip wf p0 h hl
+  obtain ⟨hwf, hsh⟩ := run_wf p0 hwf0 ops
+  obtain ⟨oc, _, _, _⟩ := linked_objs L
+  refine ⟨?_, ?_, ?_, ?_⟩
+  · intro ck
+    rw [← hnum ck, numbers_write, numbers_write, List.length_map, List.length_map, hsh.objs]
+  · intro s ck n hs
+    have hs0 : (write p0).at s = some (ck, n) := by rw [hat]; exact hs
+    rw [at_write p0 hwf0.matPos hwf0.closed] at hs0
+    obtain ⟨x, hx, hxe⟩ := Option.map_eq_some_iff.mp hs0
+    obtain ⟨ck', o⟩ := x
+    simp only [Prod.mk.injEq] at hxe
+    obtain ⟨rfl, _⟩ := hxe
+    obtain ⟨n0, n', h0, h1, h2, h3⟩ := (C04_history p0 hwf0 ops).2 s ck' o hx
+    have hn : n0 = n := by
+      rw [hat, hs] at h0
+      simpa using h0.symm
+    subst hn
+    refine ⟨n', h1, ?_, ?_⟩
+    · rw [h2, hres]
+    · rw [← hres, h3]; rfl
+  · intro s hs
+    have hs0 : (write p0).at s = none := by rw [hat]; exact hs
+    rw [at_write p0 hwf0.matPos hwf0.closed] at hs0
+    have hp : p0.ptr s = none := by simpa using hs0
+    rw [at_write _ hwf.matPos hwf.closed, hsh.ptr, hp]; rfl
   · intro c hc
-    simp [exProb, mkColl] at hc
-    have : c = 0 ∨ c = 1 := by
-      rcases c with _ | _ | c
-      · exact Or.inl rfl
-      · exact Or.inr rfl
-      · omega
-    rcases this with rfl | rfl <;> simp [exProb, mkColl]
-  · intro c hc u hu
-    simp [exProb, mkColl] at hc
-    have : c = 0 ∨ c = 1 := by
-      rcases c with _ | _ | c
-      · exact Or.inl rfl
-      · exact Or.inr rfl
-      · omega
-    rcases this with rfl | rfl
-    · simp [exProb] at hu
-      subst hu
-      simp [exProb, mkColl]
-    · simp [exProb] at hu
-  · intro hd; simp [exProb] at hd
-  · intro m hm; simp [exProb, mkColl] at hm ⊢; subst hm; decide
+    have hobj : p0.cells.objs[c]? = some c := by rw [oc]; exact range_getElem?_lt hc
+    obtain ⟨h1, h2, h3, h4⟩ := C04_history_universe p0 hwf0 ops c c hobj
+    refine ⟨?_, ?_, ?_⟩
+    · rw [h1, hcin, (hu c hc).1]
+    · rw [h2, ← (hu c hc).2, h3]; simp
+    · intro j u hj
+      rw [← (hu c hc).2, h3, List.getElem?_map] at hj
+      obtain ⟨x, hx, rfl⟩ := Option.map_eq_some_iff.mp hj
+      refine ⟨(run p0 ops).univs.num x, ?_, ?_⟩
+      · rw [h2, List.getElem?_map, hx]; rfl
+      · rw [h4 x (List.mem_of_getElem? hx), hcin]
 
-/-- the hypotheses of `C04_resolve` / `C04_history` are met by real references … -/
-example : exProb.ptr (.geom 1 1) = some (.cell, 0) := by decide
-example : exProb.ptr (.surfPer 1) = some (.surf, 0) := by decide
-example : exProb.ptr (.fillTr 0) = some (.tr, 0) := by decide
-/-- … a swap through a temporary really changes the file as `C04_swap` says (cells 10 ↔ 20) … -/
-example : (write (run exProb [⟨.cell, 0, 99⟩, ⟨.cell, 1, 10⟩, ⟨.cell, 0, 20⟩])).cells.map (fun c => (c.number, c.geom)) =
-    [(20, [(false, 1), (false, 2)]), (10, [(false, 1), (true, 20)])] := by decide
-/-- … rejected assignments occur in histories (number in use) … -/
-example : (step exProb ⟨.surf, 0, 2⟩).2 = .err .numberConflict := by decide
-/-- … and without unique numbers the look-up does not resolve (why `Inv` is needed): two surfaces numbered 1. -/
-example : resolve { exFile with surfs := [{ number := 1, tr := none, per := none }, { number := 1, tr := none, per := none }] } .surf 1 = none := by
-  decide
+/-! ### the literal round trip `write (link wf) = wf` -/
+
+/-- **Normal form** of the numbers-only view (what MontePy writes, and what an MCNP reader makes of any file
+    after dropping what carries no information): `U=0` is not written in a cell, a data-block `U` / `FILL`
+    card has exactly one entry per cell and at least one entry that is not a jump. -/
+structure Canonical (wf : WFile) : Prop where
+  uNonzero : ∀ c ∈ wf.cells, c.u ≠ some 0
+  uCard : ∀ l, wf.uCard = some l → l.length = wf.cells.length ∧ ∃ x ∈ l, x ≠ 0
+  fillCard : ∀ l, wf.fillCard = some l → l.length = wf.cells.length ∧ ∃ x ∈ l, x ≠ none
+
+theorem WFile.ext' {a b : WFile} (h1 : a.cells = b.cells) (h2 : a.surfs = b.surfs) (h3 : a.mats = b.mats)
+    (h4 : a.trs = b.trs) (h5 : a.uCard = b.uCard) (h6 : a.fillCard = b.fillCard) : a = b := by
+  cases a; cases b; simp_all
+
+theorem WCell.ext' {a b : WCell} (h1 : a.number = b.number) (h2 : a.mat = b.mat) (h3 : a.geom = b.geom)
+    (h4 : a.u = b.u) (h5 : a.fill = b.fill) (h6 : a.fillTr = b.fillTr) : a = b := by
+  cases a; cases b; simp_all
+
+theorem mkColl_num_lt {nums : List Int} {i : Nat} (h : i < nums.length) : (mkColl nums).num i = nums[i] := by
+  show nums.getD i 0 = nums[i]
+  rw [List.getD_eq_getElem?_getD, List.getElem?_eq_getElem h]; rfl
+
+/-- the cell card MontePy writes for cell `i` of a linked canonical file is the cell card of the file -/
+theorem cell_roundtrip {wf : WFile} {p : Prob} (h : WellFormed wf) (hc : Canonical wf) (L : Linked wf p)
+    (i : Nat) (hi : i < wf.cells.length) : cellUpdateValues p i = wf.cells[i] := by
+  obtain ⟨x, hx, hmat, ⟨hlen, hg⟩, hun, hf, htr⟩ := linked_cell L i hi
+  have hxe : x = wf.cells[i] := by
+    rw [List.getElem?_eq_getElem hi] at hx; exact (Option.some.inj hx).symm
+  have hxmem : x ∈ wf.cells := List.mem_of_getElem? hx
+  rw [← hxe]
+  have hfd : p.fillData = wf.fillCard.isSome := L.fillData
+  have hud : p.uData = wf.uCard.isSome := L.uData
+  apply WCell.ext'
+  · show p.cells.num i = x.number
+    rw [L.cells, mkColl_num_lt (by simpa using hi)]
+    simp [hxe]
+  · show (match (p.cell i).mat with | some m => p.mats.num m | none => 0) = x.mat
+    rcases hmat with ⟨h0, hn⟩ | ⟨_, m, hm, hnum, _⟩
+    · simp [hn, h0]
+    · simp [hm, hnum]
+  · show (p.cell i).geom.map (unitHalfSpaceUpdateNode p) = x.geom
+    apply List.ext_getElem?
+    intro j
+    rw [List.getElem?_map]
+    cases hj : x.geom[j]? with
+    | none =>
+      have : (p.cell i).geom[j]? = none := by
+        apply List.getElem?_eq_none
+        have := List.getElem?_eq_none_iff.mp hj
+        omega
+      simp [this]
+    | some a =>
+      obtain ⟨l, hl, hic, hnum, _⟩ := hg j a hj
+      rw [hl]
+      simp only [Option.map_some, unitHalfSpaceUpdateNode, Option.some.injEq]
+      cases hb : a.1
+      · simp only [hb] at hic hnum
+        simp at hnum
+        simp [hic, hnum, Prod.ext_iff, hb]
+      · simp only [hb] at hic hnum
+        simp at hnum
+        simp [hic, hnum, Prod.ext_iff, hb]
+  · show universeUpdateCellValues p i = x.u
+    unfold universeUpdateCellValues
+    rw [hun.1, hud]
+    cases huc : wf.uCard.isSome
+    · have hnone : wf.uCard = none := by simpa using huc
+      cases hxu : x.u with
+      | none =>
+        have : wf.effU i = 0 := by simp [WFile.effU, hx, hxu, hnone]
+        simp [this]
+      | some n =>
+        have : wf.effU i = n := by simp [WFile.effU, hx, hxu]
+        have hn0 : n ≠ 0 := fun e => hc.uNonzero x hxmem (by rw [hxu, e])
+        simp [this, hn0]
+    · simp [h.oneBlockU huc x hxmem]
+  · show fillUpdateCellUniverses p i = x.fill
+    unfold fillUpdateCellUniverses
+    rw [hf.1, hfd]
+    cases hfc : wf.fillCard.isSome
+    · have hnone : wf.fillCard = none := by simpa using hfc
+      by_cases he : x.fill = []
+      · simp [WFile.effFill, hx, he, hnone]
+      · simp [WFile.effFill, hx, he]
+    · simp [h.oneBlockFill hfc x hxmem]
+  · show fillUpdateCellTransform p i = x.fillTr
+    unfold fillUpdateCellTransform
+    rcases htr with ⟨h1, h2⟩ | ⟨t, y, h1, h2, hnum, _⟩
+    · simp [h1, h2]
+    · have hfne : x.fill ≠ [] := h.fillTrInFill x hxmem (by simp [h1])
+      have hfd' : p.fillData = false := by
+        rw [hfd]
+        cases hfc : wf.fillCard.isSome
+        · rfl
+        · exact absurd (h.oneBlockFill hfc x hxmem) hfne
+      have hpf : (p.cell i).fill ≠ [] := by
+        intro he
+        have h3 := hf.2.2
+        rw [he] at h3
+        have : wf.effFill i = x.fill := by simp [WFile.effFill, hx, hfne]
+        rw [this] at h3
+        exact hfne (List.length_eq_zero_iff.mp h3.symm)
+      simp [hfd', hpf, h1, h2, hnum]
+
+theorem map_range_eq {α} (l : List α) (f : Nat → α) (h : ∀ i (hi : i < l.length), f i = l[i]) :
+    (List.range l.length).map f = l := by
+  apply List.ext_getElem
+  · simp
+  · intro i h1 h2
+    simp [h i h2]
+
+/-- **C04_roundtrip_literal_partial** — for a well-formed file in normal form, `write (link wf)` IS the
+    file: MontePy's unedited write changes no number and no reference, literally. -/
+theorem C04_roundtrip_literal_partial (wf : WFile) (p : Prob) (h : WellFormed wf) (hc : Canonical wf)
+    (hl : link wf = some p) : write p = wf := by
+  have L := link_linked hl
+  obtain ⟨oc, os, om, ot⟩ := linked_objs L
+  have hcellU : ∀ i, i < wf.cells.length → p.univs.num (p.cell i).univ = wf.effU i := fun i hi => by
+    obtain ⟨_, _, _, _, hun, _⟩ := linked_cell L i hi; exact hun.1
+  have hcellF : ∀ i, i < wf.cells.length → (p.cell i).fill.map p.univs.num = wf.effFill i := fun i hi => by
+    obtain ⟨_, _, _, _, _, hf, _⟩ := linked_cell L i hi; exact hf.1
+  apply WFile.ext'
+  · show p.cells.objs.map (cellUpdateValues p) = wf.cells
+    rw [oc]
+    exact map_range_eq _ _ (fun i hi => cell_roundtrip h hc L i hi)
+  · show p.surfs.objs.map (surfaceUpdateValues p) = wf.surfs
+    rw [os]
+    apply map_range_eq
+    intro i hi
+    have hx : wf.surfs[i]? = some wf.surfs[i] := List.getElem?_eq_getElem hi
+    obtain ⟨htr, hper⟩ := linked_surf L i _ hx
+    have hone := h.surfOne _ (List.getElem_mem hi)
+    have hnumber : p.surfs.num i = wf.surfs[i].number := by
+      rw [L.surfs, mkColl_num_lt (by simpa using hi)]; simp
+    generalize wf.surfs[i] = x at *
+    cases x with
+    | mk number tr per =>
+      simp only [surfaceUpdateValues, WSurf.mk.injEq]
+      simp only at htr hper hone hnumber
+      refine ⟨hnumber, ?_, ?_⟩
+      · rcases htr with ⟨h1, h2⟩ | ⟨t, y, h1, h2, hnum, _⟩
+        · simp [h1, h2]
+        · simp [h1, h2, hnum]
+      · rcases htr with ⟨h1, h2⟩ | ⟨t, y, h1, h2, _, _⟩
+        · rcases hper with ⟨h3, h4⟩ | ⟨t', y', h3, h4, hnum, _⟩
+          · simp [h2, h3, h4]
+          · simp [h2, h3, h4, hnum]
+        · have : per = none := by
+            rcases hone with h' | h'
+            · rw [h1] at h'; cases h'
+            · exact h'
+          simp [h2, this]
+  · show p.mats.objs.map (thermalUpdateValues p) = wf.mats
+    rw [om]
+    apply map_range_eq
+    intro i hi
+    have hx : wf.mats[i]? = some wf.mats[i] := List.getElem?_eq_getElem hi
+    have hmt := linked_mat L i _ hx
+    have hnumber : p.mats.num i = wf.mats[i].number := by
+      rw [L.mats, mkColl_num_lt (by simpa using hi)]; simp
+    generalize wf.mats[i] = x at *
+    cases x with
+    | mk number mt =>
+      simp only [thermalUpdateValues, WMat.mk.injEq]
+      simp only at hmt hnumber
+      refine ⟨hnumber, ?_⟩
+      rcases hmt with ⟨h1, h2⟩ | ⟨t, y, h1, h2, hnum, _⟩
+      · simp [h1, h2]
+      · simp [h1, h2, hnum]
+  · show p.trs.objs.map p.trs.num = wf.trs
+    rw [L.trs]; exact mkColl_nums _
+  · show universeCollectNewValues p = wf.uCard
+    unfold universeCollectNewValues
+    rw [L.uData, oc]
+    cases hu : wf.uCard with
+    | none => simp
+    | some l =>
+      obtain ⟨hlen, x, hxl, hx0⟩ := hc.uCard l hu
+      have hnoneU : ∀ i (hi : i < wf.cells.length), wf.effU i = l[i]'(by omega) := by
+        intro i hi
+        have hxu : wf.cells[i].u = none := h.oneBlockU (by simp [hu]) _ (List.getElem_mem hi)
+        simp [WFile.effU, List.getElem?_eq_getElem hi, hxu, hu, List.getD_eq_getElem?_getD,
+          List.getElem?_eq_getElem (show i < l.length by omega)]
+      have hany : ((List.range wf.cells.length).any fun c => decide (p.univs.num (p.cell c).univ ≠ 0)) = true := by
+        obtain ⟨j, hj, rfl⟩ := List.getElem_of_mem hxl
+        apply List.any_eq_true.mpr
+        refine ⟨j, List.mem_range.mpr (by omega), ?_⟩
+        rw [hcellU j (by omega), hnoneU j (by omega)]
+        simpa using hx0
+      simp only [Option.isSome_some, hany, and_self, if_true, Option.some.injEq]
+      rw [← hlen]
+      apply map_range_eq
+      intro i hi
+      rw [hcellU i (by omega), hnoneU i (by omega)]
+  · show fillCollectNewValues p = wf.fillCard
+    unfold fillCollectNewValues
+    rw [L.fillData, oc]
+    cases hu : wf.fillCard with
+    | none => simp
+    | some l =>
+      obtain ⟨hlen, x, hxl, hx0⟩ := hc.fillCard l hu
+      have hnoneF : ∀ i (hi : i < wf.cells.length), wf.effFill i =
+          (match l[i]'(by omega) with | some n => [n] | none => []) := by
+        intro i hi
+        have hxf : wf.cells[i].fill = [] := h.oneBlockFill (by simp [hu]) _ (List.getElem_mem hi)
+        simp only [WFile.effFill, List.getElem?_eq_getElem hi, hxf, ne_eq, not_true_eq_false, if_false, hu,
+          List.getElem?_eq_getElem (show i < l.length by omega)]
+        cases l[i] <;> rfl
+      have hany : ((List.range wf.cells.length).any fun c => decide ((p.cell c).fill ≠ [])) = true := by
+        obtain ⟨j, hj, rfl⟩ := List.getElem_of_mem hxl
+        apply List.any_eq_true.mpr
+        refine ⟨j, List.mem_range.mpr (by omega), ?_⟩
+        have h1 := hcellF j (by omega)
+        rw [hnoneF j (by omega)] at h1
+        cases hlj : l[j] with
+        | none => exact absurd hlj hx0
+        | some n =>
+          rw [hlj] at h1
+          have : (p.cell j).fill ≠ [] := by
+            intro he; rw [he] at h1; simp at h1
+          simpa using this
+      simp only [Option.isSome_some, hany, and_self, if_true, Option.some.injEq]
+      rw [← hlen]
+      apply map_range_eq
+      intro i hi
+      have h1 := hcellF i (by omega)
+      rw [hnoneF i (by omega)] at h1
+      have : (p.cell i).fill.head?.map p.univs.num = ((p.cell i).fill.map p.univs.num).head? := by
+        cases (p.cell i).fill <;> rfl
+      rw [this, h1]
+      cases l[i] <;> rfl
+
+/-- **C04_roundtrip_literal_refuted** — without the normal form the literal equation is false (of any
+    faithful writer, not only of MontePy): `U=0` on a cell card is read as "not in a universe" and not
+    written back.  The reference structure is unchanged all the same (`C04_unedited_roundtrip`). -/
+theorem C04_roundtrip_literal_refuted :
+    ∃ wf p, WellFormed wf ∧ link wf = some p ∧ write p ≠ wf := by
+  refine ⟨{ cells := [{ number := 1, mat := 0, geom := [(false, 1)], u := some 0, fill := [], fillTr := none }],
+            surfs := [{ number := 1, tr := none, per := none }], mats := [], trs := [], uCard := none, fillCard := none },
+          _, C04_wellFormedB_sound _ (by decide), rfl, by decide⟩
+
+/-! ### Non-vacuity of `WellFormed` / `Canonical`, matrix fills, data-block cards -/
+
+example : WellFormed exFile := C04_wellFormedB_sound _ (by decide)
+example : Canonical exFile := ⟨by decide, (by intro l h; cases h), (by intro l h; cases h)⟩
+
+/-- a lattice cell filled with a 2x2 matrix of two universes (`fill=0:1 0:1 0:0 5 6 6 5`): every matrix
+    entry is a universe reference -/
+def exLattice : WFile :=
+  { cells := [{ number := 1, mat := 0, geom := [(false, 1)], u := none, fill := [5, 6, 6, 5], fillTr := none },
+              { number := 2, mat := 0, geom := [(false, 1)], u := some 5, fill := [], fillTr := none },
+              { number := 3, mat := 0, geom := [(false, 1), (true, 2)], u := some 6, fill := [], fillTr := none }]
+    surfs := [{ number := 1, tr := none, per := none }], mats := [], trs := [], uCard := none, fillCard := none }
+
+example : exLattice.wellFormedB = true := by decide
+example : Canonical exLattice := ⟨by decide, (by intro l h; cases h), (by intro l h; cases h)⟩
+example : (link exLattice).map write = some exLattice := by decide
+/-- universes 5 ↦ 50, then 6 ↦ 5: every matrix entry follows its universe object, and so do the `U` entries -/
+example : (link exLattice).map (fun p => (write (run p [⟨.univ, 1, 50⟩, ⟨.univ, 2, 5⟩])).cells.map (fun c => (c.u, c.fill))) =
+    some [(none, [50, 5, 5, 50]), (some 50, []), (some 5, [])] := by decide
+
+/-- per-cell data in the data block (`u j 5 5` / `fill 5 2j`), in normal form -/
+def exData : WFile :=
+  { cells := [{ number := 1, mat := 0, geom := [(false, 1)], u := none, fill := [], fillTr := none },
+              { number := 2, mat := 0, geom := [(false, 1)], u := none, fill := [], fillTr := none },
+              { number := 3, mat := 0, geom := [(false, 1), (true, 2)], u := none, fill := [], fillTr := none }]
+    surfs := [{ number := 1, tr := none, per := none }], mats := [], trs := []
+    uCard := some [0, 5, 5], fillCard := some [some 5, none, none] }
+
+example : exData.wellFormedB = true := by decide
+example : Canonical exData :=
+  ⟨by decide,
+   (by intro l h; simp only [exData, Option.some.injEq] at h; subst h; exact ⟨rfl, 5, by decide, by decide⟩),
+   (by intro l h; simp only [exData, Option.some.injEq] at h; subst h; exact ⟨rfl, some 5, by decide, by decide⟩)⟩
+example : (link exData).map write = some exData := by decide
+example : (link exData).map (fun p => let w := write (run p [⟨.univ, 1, 9⟩]); (w.uCard, w.fillCard)) =
+    some (some [0, 9, 9], some [some 9, none, none]) := by decide
+
+/-- a file that is NOT well-formed (a cell filled with a universe no cell is in) is rejected by the decision
+    procedure — and MontePy's link fails on it (`KeyError` from `universes[number]`) -/
+example : ({ exLattice with cells := exLattice.cells.take 2 } : WFile).wellFormedB = false := by decide
+example : link ({ exLattice with cells := exLattice.cells.take 2 } : WFile) = none := by decide
 
 end MontePyVerif.Renumber
